@@ -2,7 +2,126 @@ package main
 
 // regenerated facts of the "block" family (C28 C31 C32 C33 C35)
 
+import (
+	"go/ast"
+	"sort"
+	"strings"
+)
+
 func init() { families = append(families, factsBlock) }
 
+// blkCalls returns, in source order, the calls in body whose callee (full name or last selector
+// component) is one of names.
+func blkCalls(body ast.Node, names ...string) []*ast.CallExpr {
+	var r []*ast.CallExpr
+	if body == nil {
+		return r
+	}
+	want := map[string]bool{}
+	for _, n := range names {
+		want[n] = true
+	}
+	ast.Inspect(body, func(n ast.Node) bool {
+		if c, ok := n.(*ast.CallExpr); ok {
+			full := callName(c)
+			last := full
+			if i := strings.LastIndex(full, "."); i >= 0 {
+				last = full[i+1:]
+			}
+			if want[full] || want[last] {
+				r = append(r, c)
+			}
+		}
+		return true
+	})
+	sort.Slice(r, func(i, j int) bool { return r[i].Pos() < r[j].Pos() })
+	return r
+}
+
+func argsText(c *ast.CallExpr) string {
+	var xs []string
+	for _, a := range c.Args {
+		xs = append(xs, text(a))
+	}
+	return strings.Join(xs, ", ")
+}
+
+// phaseOf names the block part a call touches, judged by the identifiers in its arguments.
+func phaseOf(c *ast.CallExpr, table [][2]string) string {
+	a := argsText(c)
+	for _, kv := range table {
+		if strings.Contains(a, kv[0]) {
+			return kv[1]
+		}
+	}
+	return "unknown:" + callName(c) + "(" + a + ")"
+}
+
 func factsBlock() {
+	// ---- C28 / C35: pkg/block/block.go
+	bf := parse("pkg/block/block.go")
+	up := body(fn(bf, "", "upload"))
+	var uploadOrder []string
+	for _, c := range blkCalls(up, "UploadDir", "UploadFile", "Upload") {
+		uploadOrder = append(uploadOrder, phaseOf(c, [][2]string{
+			{"ChunksDirname", "chunks"}, {"IndexFilename", "index"}, {"MetaFilename", "meta"}}))
+	}
+	emitList("uploadOrder", "pkg/block/block.go upload(): bucket uploads in source order (UploadDir/UploadFile/bkt.Upload by what they upload)", uploadOrder)
+
+	del := body(fn(bf, "", "Delete"))
+	var deleteOrder []string
+	for _, c := range blkCalls(del, "Delete", "deleteDirRec") {
+		if callName(c) == "deleteDirRec" {
+			deleteOrder = append(deleteOrder, "rest")
+			continue
+		}
+		// bkt.Delete(ctx, <what>)
+		what := "unknown:" + argsText(c)
+		if len(c.Args) == 2 {
+			switch text(c.Args[1]) {
+			case "metaFile":
+				what = "meta"
+			case "deletionMarkFile":
+				what = "mark"
+			case "p":
+				what = "dirmarkers"
+			}
+		}
+		deleteOrder = append(deleteOrder, what)
+	}
+	emitList("deleteOrder", "pkg/block/block.go Delete(): bucket deletions in source order", deleteOrder)
+	keep := "unknown"
+	for _, c := range blkCalls(del, "deleteDirRec") {
+		if len(c.Args) > 0 {
+			if fl, ok := c.Args[len(c.Args)-1].(*ast.FuncLit); ok && len(fl.Body.List) == 1 {
+				if rs, ok := fl.Body.List[0].(*ast.ReturnStmt); ok && len(rs.Results) == 1 {
+					keep = text(rs.Results[0])
+				}
+			}
+		}
+	}
+	emitStr("deleteKeepCond", "pkg/block/block.go Delete(): which objects deleteDirRec skips", keep)
+
+	// ---- C28: pkg/replicate/scheme.go
+	rf := parse("pkg/replicate/scheme.go")
+	rep := body(fn(rf, "replicationScheme", "ensureBlockIsReplicated"))
+	var replicateOrder []string
+	for _, c := range blkCalls(rep, "rs.fromBkt.Iter", "rs.ensureObjectReplicated", "rs.toBkt.Upload") {
+		ph := phaseOf(c, [][2]string{{"chunksDir", "chunks"}, {"indexFile", "index"}, {"metaFile", "meta"}, {"objectName", "chunks-object"}})
+		if ph == "chunks-object" {
+			continue // the per-object call inside the Iter over chunksDir
+		}
+		replicateOrder = append(replicateOrder, ph)
+	}
+	emitList("replicateOrder", "pkg/replicate/scheme.go ensureBlockIsReplicated(): what is copied to the target bucket, in source order", replicateOrder)
+	ens := body(fn(rf, "replicationScheme", "ensureObjectReplicated"))
+	emitList("replicateObjectOrder", "pkg/replicate/scheme.go ensureObjectReplicated(): target Exists / origin Get / target Upload",
+		callSeq(ens, "rs.toBkt.Exists", "rs.fromBkt.Get", "rs.toBkt.Upload"))
+
+	// ---- C28 / C35: pkg/shipper/shipper.go
+	sf := parse("pkg/shipper/shipper.go")
+	emitList("shipperSyncOrder", "pkg/shipper/shipper.go Sync(): per block Exists → (overlap check) → upload; file written after the loop",
+		callSeq(body(fn(sf, "Shipper", "Sync")), "ReadMetaFile", "s.bucket.Exists", "checker.IsOverlapping", "s.upload", "WriteMetaFile"))
+	emitList("shipperUploadOrder", "pkg/shipper/shipper.go upload(): hard link, meta rewrite, block.Upload",
+		callSeq(body(fn(sf, "Shipper", "upload")), "hardlinkBlock", "meta.WriteToDir", "block.Upload"))
 }
